@@ -83,8 +83,16 @@ def cli_profile_exact(ctx):
             try:
                 c.tree.realise(b, s)
                 argv0 = ['-p', prof, '-H', ' '.join(hashes)]
-                rc = p_c18.run_cli(['create'] + argv0 + [b], key)
-                steps.append(['create', rc])
+                if r.random() < 0.25:
+                    # the tree was first covered under the default profile (one top-level Manifest), then switched to the ebuild profile
+                    c.meta['switched_profile'] = True
+                    rc0 = p_c18.run_cli(['create', '-H', ' '.join(hashes), b], key)
+                    steps.append(['create (default profile)', rc0])
+                    rc = p_c18.run_cli(['update'] + argv0 + [b], key) if rc0 == ['exit', 0] else rc0
+                    steps.append(['update', rc])
+                else:
+                    rc = p_c18.run_cli(['create'] + argv0 + [b], key)
+                    steps.append(['create', rc])
                 files = files_of(ET.canon_files(ET.list_real_files(b))) if rc == ['exit', 0] else None
                 rounds = [('', files)] if files is not None else []
                 if files is not None and r.random() < 0.6:
